@@ -164,6 +164,37 @@ func gen(h *lp.H, do func(string) string, im *impl) {
 		h.Op(fmt.Sprintf("concurrent 4 %s", pol), out)
 		h.Distinct(fmt.Sprintf("statehammer/%s", pol))
 	}
+	// ---- Flush as a barrier right after abandoned Flush calls (oracle only)
+	if !h.TooMany() {
+		h.Case("flushstorm")
+		out := im.flushStorm(h, 150)
+		h.Op("concurrent 0 flushstorm", out)
+		h.Distinct("flushstorm")
+	}
+	// ---- a chunk with many points of one data id, then flush triggers with nothing new: no chunk is cut empty (lock-step)
+	for c, pol := range []string{"none", "interval"} {
+		h.Case(fmt.Sprintf("bigchunk %d policy=%s", c, pol))
+		var pts []string
+		for k := 0; k < 600; k++ {
+			pts = append(pts, fmt.Sprintf("%d/%02x", k, k%251))
+		}
+		do("open " + pol + " r _")
+		do("write 1 " + strings.Join(pts, ";"))
+		do("write 2 1/aa;2/bb")
+		do("flush")
+		do("flush")
+		do("tick")
+		do("ack 1:1 _")
+		do("write 2 3/cc")
+		do("tick")
+		do("flush")
+		do("flush")
+		do("ack 2:1 _")
+		if out := do("close"); !strings.HasPrefix(out, "err") && out != "hang" {
+			im.oracle(h)
+		}
+		h.Distinct("bigchunk/" + pol)
+	}
 	// ---- writers racing with Close (oracle only)
 	for c := 0; c < h.N/40+3 && !h.TooMany(); c++ {
 		k := 6 + rng.Intn(11)
